@@ -25,6 +25,7 @@ def scenario_interp(ctx):
     from ..scenario import json_loads
     it = Interp(ctx, overrides={("feature", "dict_class"): TypeVal("dict")})
     it.summaries["helpers._unjsonify"] = lambda i, pos, kw, node: json_loads(i, pos[:1], {}, node)
+    it.construct_real |= {"feature.Feature"}
     return it
 
 
@@ -189,3 +190,111 @@ def returned(ctx, t, what, func=None, rule="R1"):
     if not ok:
         ctx.ob(rule, False, "%s completes on a well-formed scenario" % what, func=func, sig="%s raises %s: %s" % (what, t.result[1], str(t.result[2])[:80] if len(t.result) > 2 else ""))
     return ok
+
+
+def expected_row(f, keys):
+    """The features row the statement prescribes for a parsed line (attributes / extra as decoded JSON)."""
+    from ..binsmodel import spec_bins
+    a = f.attrs
+    row = {}
+    for k in keys:
+        if k == "bin":
+            row[k] = spec_bins(a["start"], a["end"], "gff", True) if isinstance(a["start"], int) and isinstance(a["end"], int) else None
+        else:
+            row[k] = a[k]
+    return row
+
+
+def decoded_row(r, keys):
+    import json
+    out = dict(zip(keys, r))
+    for k in ("attributes", "extra"):
+        if isinstance(out.get(k), str):
+            try:
+                out[k] = json.loads(out[k])
+            except ValueError:
+                out[k] = ("not JSON", out[k])
+    return out
+
+
+# ------------------------------------------------------------------------------------------------ GTF families
+def gtf_lines(which="family"):
+    g = lambda name, ft, s, e, gene, tx, **kw: feature(name, ft, s, e, {"gene_id": [gene], "transcript_id": [tx]}, **kw)
+    if which == "family":
+        return [
+            g("A1", "exon", 100, 200, "g1", "t1"),
+            g("B1", "exon", 5000, 5100, "g2", "t3", seqid="chr2", strand="-"),
+            g("A2", "exon", 300, 400, "g1", "t1"),
+            g("A3", "CDS", 150, 350, "g1", "t1"),
+            g("A4", "exon", 1000, 1100, "g1", "t2"),
+            g("A5", "start_codon", 150, 152, "g1", "t1"),
+            g("B2", "exon", 4000, 4100, "g2", "t3", seqid="chr2", strand="-"),
+            g("A6", "CDS", 2000, 2100, "g1", "t9"),          # a transcript that owns no exon
+        ]
+    if which == "explicit":
+        # gene and transcript lines present in the file
+        return [
+            feature("G", "gene", 90, 1200, {"gene_id": ["g1"]}),
+            g("T", "transcript", 95, 450, "g1", "t1"),
+            g("A1", "exon", 100, 200, "g1", "t1"),
+            g("A2", "exon", 300, 400, "g1", "t1"),
+        ]
+    raise ValueError(which)
+
+
+def expected_gtf(lines, ids, infer_genes=True, infer_transcripts=True, subfeature="exon", tkey="transcript_id", gkey="gene_id"):
+    """Reference model of the GTF import: (derived features {id: (type, seqid, start, end, strand)}, relations)."""
+    rel = set()
+    tx, gn = {}, {}
+    given = dict(zip(ids, lines))
+    for f, i in zip(lines, ids):
+        a = f.attrs["attributes"]
+        t = (a.get(tkey) or [None])[0]
+        g = (a.get(gkey) or [None])[0]
+        if t is not None and t != i:
+            rel.add((t, i, 1))
+        if g is not None:
+            if g != i:
+                rel.add((g, i, 2))
+            if t is not None:
+                rel.add((g, t, 1))
+        if f.attrs["featuretype"] == subfeature and t is not None:
+            tx.setdefault(t, []).append(f)
+            if g is not None:
+                gn.setdefault(g, []).append(f)
+    derived = {}
+    if infer_transcripts:
+        for t, ex in tx.items():
+            if t not in given:
+                derived[t] = ("transcript", ex[0].attrs["seqid"], min(e.attrs["start"] for e in ex), max(e.attrs["end"] for e in ex), ex[0].attrs["strand"])
+    if infer_genes:
+        for g, ex in gn.items():
+            if g not in given:
+                derived[g] = ("gene", ex[0].attrs["seqid"], min(e.attrs["start"] for e in ex), max(e.attrs["end"] for e in ex), ex[0].attrs["strand"])
+    # a line's own id is never its own parent/child; the relation table is a set
+    rel = {r for r in rel if r[0] != r[1]}
+    return derived, rel
+
+
+def open_feature_db(ctx, db, dbfn="db.sqlite", **kw):
+    """FeatureDB(dbfn) evaluated on the model database: the object __init__ leaves behind (dialect, directives, counters
+    read from the tables), with the evaluator to run its methods."""
+    it = scenario_interp(ctx)
+    it.MAX_TRACES = 64
+    conn = install(it, db, files={dbfn: []})
+    it.construct_real |= {"create._GFFDBCreator", "create._GTFDBCreator", "feature.Feature"}
+    me = Opaque("self", "FeatureDB")
+    me.attrs["__class__"] = __import__("gffsa.absint", fromlist=["TypeVal"]).TypeVal("interface.FeatureDB")
+    t = call_method(ctx, it, me, "interface.FeatureDB.__init__", dbfn=dbfn, **kw)
+
+    def s_dataiterator(i, pos, kw_, node):
+        data = pos[0] if pos else kw_.get("data")
+        if isinstance(data, IterVal):
+            return data
+        items = list(data)
+        iv = IterVal(items, dialect=kw_.get("dialect") or me.attrs.get("dialect"))
+        n = kw_.get("checklines", 10)
+        iv.fields["_peek"] = items[: (n + 1 if isinstance(n, int) else 11)]
+        return iv
+    it.summaries["iterators.DataIterator"] = s_dataiterator
+    return it, me, conn, t
